@@ -155,7 +155,7 @@ func (e *sgEngine) Generate(seed uint64, tier string, run int) (json.RawMessage,
 	var c SGCase
 	n := rk.Range(4, 40)
 	sizes := []int{0, 1, 2, 3, 5, 8, 16, 33, 64}
-	pattern := rk.Intn(5) // 3: typing (every Init extends the previous paragraph by a few runes); 4: one huge paragraph, then short ones
+	pattern := rk.Intn(5) // 3: typing (every Init extends the previous paragraph by a few runes or deletes its last ones); 4: one huge paragraph, then short ones
 	lastLen := 0
 	lastText := ""
 	// swarm knob: 20% of the runs draw their texts from truncation aliases (see genCollisionText)
@@ -212,7 +212,11 @@ func (e *sgEngine) Generate(seed uint64, tier string, run int) (json.RawMessage,
 			}
 			lastText = string(t)
 			switch {
-			case pattern == 3 && len(c.Ops) > 0 && rg.Chance(0.85):
+			case pattern == 3 && len(c.Ops) > 0 && rg.Chance(0.3):
+				// ... or deletes the last one to three runes of it (what stays is a strict prefix: every
+				// rule that looked ahead at the cut sees another context now)
+				op = ReuseOp{K: "uinit", E: 5, Iter: rg.Intn(3), S: op.S}
+			case pattern == 3 && len(c.Ops) > 0 && rg.Chance(0.8):
 				k := rg.Range(1, 3)
 				add := genClassText(rg, k)
 				if rg.Chance(0.6) {
